@@ -73,6 +73,7 @@ def generate(rng, tier):
     out += sc.gen_remove_hookraise(rng, 60 * n)
     # extend()/remove() called from a doer's enter context while the scheduler is still entering its doers
     out += sc.gen_enter_effects(rng, 60 * n)
+    sc.add_falsy(rng, out)
     return out
 
 
